@@ -13,6 +13,7 @@ import (
 
 	"verif/harness/core"
 	"verif/harness/env"
+	"verif/harness/keys"
 	"verif/harness/sim"
 	"verif/harness/spsim"
 )
@@ -290,6 +291,64 @@ func c07Uptime(r *core.Run, idx int, rng *rand.Rand) {
 	r.Max("uptime_inflated_KiB_served_by_one_provider", int64(total>>10))
 }
 
+// c07SignedSequence: ONE provider serves a sequence of correctly signed requests of ONE registered service provider
+// (whose metadata lists an encryption key in front of its signing key) - POST and redirect binding, SOAP attribute
+// queries, with and without KeyInfo, in any order. What an earlier request looked like must not matter.
+func c07SignedSequence(r *core.Run, idx int, rng *rand.Rand) {
+	const wl = "signed_request_sequences"
+	e := env.Static(env.Opts{WantSigned: []string{"", "true"}[rng.Intn(2)]})
+	d := stdSP(0)
+	d.AuthnRequestsSigned = []string{"", "true"}[rng.Intn(2)]
+	if idx%3 != 2 {
+		d.EncCert = keys.Get("sp3")
+	}
+	mustRegister(e.W, d, "appA")
+	u := randUser(rng, fmt.Sprintf("U_MK%dx", idx), false)
+	e.W.AddUser(u)
+	for k := 0; k < 8; k++ {
+		keyInfo := rng.Intn(2) == 0
+		kind := []string{"authn_post", "authn_post", "authn_redirect", "query"}[rng.Intn(4)]
+		opts := spsim.XMLSignOpts{Alg: []string{spsim.AlgRSASHA1, spsim.AlgRSASHA256}[rng.Intn(2)], DropKey: !keyInfo}
+		var call *env.Call
+		ok := false
+		switch kind {
+		case "authn_post":
+			a := validAuthn(rng, d)
+			sx, err := spsim.SignEnveloped(a.XML(rng), d.Cert, opts)
+			if err != nil {
+				panic(err)
+			}
+			call = e.Do(env.Req{Method: "POST", Path: env.PathSSO, Body: spsim.FormBody("SAMLRequest", spsim.B64([]byte(sx)), "RelayState", "MKrelay")})
+			ok = call.Accepted()
+		case "authn_redirect":
+			a := validAuthn(rng, d)
+			s := ssoSend{Binding: "redirect", XML: a.XML(rng), HasRelay: true, Relay: "MKrelay", SignKey: d.Cert, Alg: opts.Alg}
+			call, _ = s.do(e)
+			ok = call.Accepted()
+		default:
+			q := conformantQuery(rng, d, u.Username)
+			sx, err := spsim.SignEnveloped(q.QueryNode().Render(q.Style.Indent), d.Cert, opts)
+			if err != nil {
+				panic(err)
+			}
+			call = e.Do(env.Req{Method: "POST", Path: env.PathAttr, Body: q.Envelope(strings.TrimSpace(strings.TrimPrefix(sx, `<?xml version="1.0" encoding="UTF-8"?>`))), CT: "text/xml"})
+			ok = call.D.Success()
+		}
+		class := fmt.Sprintf("signed_sequence|%s|keyinfo=%v|enc_key_listed=%v", kind, keyInfo, d.EncCert != nil)
+		r.Eval(fmt.Sprintf("%s|%d|%d", class, idx, k))
+		desc := map[string]any{"step": k, "kind": kind, "keyinfo": keyInfo}
+		if call.Panic != "" {
+			r.Violate(core.Violation{Clause: "panic", Class: class, Reason: call.Panic, Workload: wl, Index: idx, Case: desc, Observed: call.Describe()})
+			return
+		}
+		if !ok {
+			r.Violate(core.Violation{Clause: "conformant_signed_request_rejected_in_sequence", Class: class, Reason: fmt.Sprintf("step %d: a correctly signed %s (KeyInfo %v) was not accepted after %d other signed requests of the same service provider (status %d %s)", k, kind, keyInfo, k, call.D.Status, clipS(string(call.D.Body), 200)), Workload: wl, Index: idx, Case: desc, Observed: call.Describe()})
+			return
+		}
+		r.Count("signed_sequence_accepted", 1)
+	}
+}
+
 // c07AbortedNeighbour: two requests of one service provider overlap on one provider; the client of the first goes
 // away while its service-provider lookup is pending (its context is cancelled, the lookup fails with the context's
 // error). The second, conformant request has nothing to do with that and must be accepted.
@@ -437,6 +496,7 @@ func init() {
 			r.Require("multi_host_accepted", 500)
 			r.Require("multi_host_concurrent_accepted", 500)
 			r.Require("accepted_beside_aborted_neighbour", 50)
+			r.Require("signed_sequence_accepted", 300)
 			r.Require("endpoint_with_query_requests", 100)
 			r.Require("uptime_accepted", 100)
 			return []core.Workload{
@@ -452,6 +512,7 @@ func init() {
 					multiHostConcurrent(r, "multi_host_concurrent", idx, rng, false)
 				}},
 				{Name: "aborted_neighbour", N: c.Pick(60, 600), Fn: c07AbortedNeighbour},
+				{Name: "signed_request_sequences", N: c.Pick(60, 600), Fn: c07SignedSequence},
 				{Name: "advertised_location_with_query", N: c.Pick(120, 1200), Fn: c07EndpointQuery},
 			}
 		},
